@@ -232,12 +232,17 @@ def run(tier, seed):
         hseeds = ["1", "4242"] + (["random", "7", "123456789"] if tier == "thorough" else [])
         futs = [(hs, h, tp.submit(run_history, h, None, {"PYTHONHASHSEED": hs})) for hs in hseeds for h in HASH_HISTORIES]
         futs += [("0", h, tp.submit(run_history, h, None, {"PYTHONHASHSEED": "0"})) for h in RAND_HISTORIES]
+        # the process's own local timezone (the references run under TZ=UTC)
+        futs += [("tz:" + z, h, tp.submit(run_history, h, None, {"TZ": z, "VERIF_KEEP_TZ": "1", "PYTHONHASHSEED": "0"}))
+                 for z in (("America/Los_Angeles", "Asia/Kolkata") if tier == "quick" else ("America/Los_Angeles", "Asia/Kolkata", "Australia/Sydney", "Pacific/Apia"))
+                 for h in HASH_HISTORIES[:2]]
         for hs, h, f in futs:
             res = f.result()
             stats["processes"] += 1
             n_env += 1
             for op, r in zip(h, res["ops"]):
-                judge(op, r, "randomised_optimiser_profile" if h in RAND_HISTORIES else "string_hash_seed", f"PYTHONHASHSEED={hs} history {h}")
+                judge(op, r, "randomised_optimiser_profile" if h in RAND_HISTORIES else "process_timezone" if hs.startswith("tz:") else "string_hash_seed",
+                      f"{'TZ=' + hs[3:] if hs.startswith('tz:') else 'PYTHONHASHSEED=' + hs} history {h}")
     cov = {
         "states": max(len(seen), 1), "transitions": max(edges, 1), "traces_validated_against_impl": edges,
         "evaluations": stats["processes"], "distinct_nontrivial": len(seen) + n_sched,
